@@ -923,6 +923,16 @@ impl Sess {
     }
     fn bookkeeping(&mut self, out: &mut Out, rng: &mut Rng, n: usize) {
         let peer = self.mgrs[rng.below(3) as usize].replica_id;
+        if rng.chance(1, 4) {
+            // a request to a peer that was never found divergent: last_sync_time gets an entry for a peer
+            // that peers_needing_sync lists only when it is DUE
+            let p = rng.below(3) as usize;
+            if p != n {
+                self.req(out, 900 + n as u64, n, p, true);
+                out.count("session:request-to-a-non-divergent-peer");
+            }
+            return;
+        }
         match rng.below(3) {
             0 => {
                 // just below / at / just above `last + sync_interval_ms`, computed from the manager's real table
@@ -1194,9 +1204,48 @@ fn corpus_built(out: &mut Out, built: bool, what: &str) {
     }
 }
 
+/// should_sync / peers_needing_sync exactly at `last request + sync_interval_ms`, one below, one
+/// above — for a peer that is NOT marked divergent (a divergent peer is listed whatever the time)
+fn corpus_bookkeeping(out: &mut Out) {
+    for interval in [0u64, 1, 10, 1000] {
+        op_reset(out);
+        let mut se = Sess { mgrs: vec![], sts: vec![], depth: vec![1; 3], digs: BTreeMap::new(), verdicts: BTreeMap::new(), reqs: BTreeMap::new(), resps: BTreeMap::new(), now: 5000 };
+        for n in 0..3 {
+            let cfg = AntiEntropyConfig { sync_interval_ms: interval, max_keys_per_sync: 10, merkle_tree_depth: 1, auto_sync_on_heal: n != 2 };
+            se.mgrs.push(AntiEntropyManager::new(ReplicaId::new(n as u64 + 1), cfg));
+            se.sts.push(ShardReplicaState::new(ReplicaId::new(n as u64 + 1), ConsistencyLevel::Eventual));
+            out.op(format!("MNEW {} {} 1 10 {} {}", NODE[n], n + 1, interval, (n != 2) as u8), "ok".into());
+            se.send_state(out, n);
+        }
+        se.req(out, 1, 0, 1, true); // a -> b at now = 5007
+        let t0 = se.now;
+        for now in [t0.saturating_add(interval).saturating_sub(1).max(t0), t0.saturating_add(interval), t0.saturating_add(interval).saturating_add(1), t0] {
+            let due = se.mgrs[0].should_sync(ReplicaId::new(2), now);
+            out.op(format!("MDUE a 2 {}", now), format!("due={}", if due { "yes" } else { "no" }));
+            let mut v: Vec<u64> = se.mgrs[0].peers_needing_sync(now).iter().map(|r| r.0).collect();
+            v.sort();
+            out.op(format!("MNEED a {}", now), format!("need {}", v.iter().map(|x| x.to_string()).collect::<Vec<_>>().join(",")));
+            let want = now - t0 >= interval;
+            if due != want || v.contains(&2) != want {
+                out.violation("C18:sync:should-sync", &format!("sync_interval_ms = {}, last request at {}, now {}: should_sync = {}, peers_needing_sync = {:?}; a sync is due iff now - last >= interval", interval, t0, now, due, v),
+                    json!({"sync_interval_ms": interval, "last": t0, "now": now}));
+            }
+            out.count("bookkeeping:interval-boundary");
+        }
+        // partition heal: marks the peer divergent and forgets the last request (auto_sync_on_heal), or nothing
+        for n in [0usize, 2] {
+            se.mgrs[n].on_partition_healed(ReplicaId::new(2));
+            out.op(format!("MHEAL {} 2", NODE[n]), format!("dp={}", set_str(&se.mgrs[n].divergent_peers)));
+            let due = se.mgrs[n].should_sync(ReplicaId::new(2), t0);
+            out.op(format!("MDUE {} 2 {}", NODE[n], t0), format!("due={}", if due { "yes" } else { "no" }));
+        }
+    }
+}
+
 /// fixed witnesses, run first on every run (known findings must reproduce)
 fn corpus(out: &mut Out, rng: &mut Rng, thorough: bool) {
     op_sip(out, rng, 60);
+    corpus_bookkeeping(out);
     // (1) DESIGN.md §6.1: the same 40 entries inserted in two orders, depth 2
     let content: Vec<(String, ReplicatedValue)> = (0..40).map(|i| (format!("key{}", i), rv_lww(format!("v{}", i).as_bytes(), i as u64 + 1, 1))).collect();
     let p = Pair { a: build(&content, rng), b: build(&content, rng), depth: 2 };
